@@ -916,3 +916,244 @@ def check_block_predicates(ctx, f, rule="R-REG"):
         ctx.ob(rule, "Block::%s:order-table" % meth, ok,
                "Block::%s is %s on every weak ordering of the bounds (with a ≤ b, c ≤ d)" % (meth, text), where=b.loc, detail=det)
     return n
+
+
+def check_bool_table(ctx, f, rule, fn, names, spec, text, key=None):
+    """Decide a small boolean function of side-effect-free tests on every assignment of its tests."""
+    from engine import orderlogic as OL
+    b = f.body(fn)
+    if b is None:
+        return ctx.missing(rule, key or short(fn), fn)
+    ctx.saw_fn(fn)
+    ok, det = OL.decide_bool(b, sym_of(b), names, spec, norm=lambda q, b=b: alpha(q, b))
+    return ctx.ob(rule, "%s:truth-table" % (key or short(fn)), ok, "%s %s (on every assignment of the tests it performs)" % (short(fn), text),
+                  where=b.loc, detail=det)
+
+
+def eval_term(t, env):
+    """Value of an integer/boolean term under env {rendered leaf: int}; None if something else occurs."""
+    t = strip_deep(t)
+    k = t[0]
+    if k == "const" and isinstance(t[1], (int, bool)):
+        return int(t[1])
+    r = render(t)
+    if r in env:
+        return env[r]
+    if k == "cast":
+        return eval_term(t[1], env)
+    if k == "un" and t[1] == "Not":
+        v = eval_term(t[2], env)
+        return None if v is None else int(not v)
+    if k == "bin":
+        a, b = eval_term(t[2], env), eval_term(t[3], env)
+        if a is None or b is None:
+            return None
+        op = t[1]
+        if op in ("Lt", "Le", "Gt", "Ge", "Eq", "Ne"):
+            return int({"Lt": a < b, "Le": a <= b, "Gt": a > b, "Ge": a >= b, "Eq": a == b, "Ne": a != b}[op])
+        if op in ("BitAnd", "BitOr", "BitXor", "Add", "Sub", "Shr", "Shl"):
+            return {"BitAnd": a & b, "BitOr": a | b, "BitXor": a ^ b, "Add": a + b, "Sub": a - b, "Shr": a >> b, "Shl": a << b}[op]
+    return None
+
+
+def check_serial_start(ctx, f, rule="R-REG"):
+    """Serial::start prepends a zero octet exactly when the first significant octet has its top bit set (so the INTEGER
+    stays non-negative and minimal): the branch condition is evaluated for all 256 octet values."""
+    fn = "repository::x509::Serial::start"
+    b = f.body(fn)
+    if b is None:
+        return ctx.missing(rule, "Serial::start", fn)
+    ctx.saw_fn(fn)
+    s = sym_of(b)
+    found = None
+    for bi, blk in enumerate(b.blocks):
+        t = blk["term"]
+        if t["t"] != "switch" or blk.get("cleanup"):
+            continue
+        d = strip_deep(s.operand(t["discr"]))
+        leaves = [x for x in walk(d) if x[0] == "index"]
+        if not leaves:
+            continue
+        leaf = render(leaves[0])
+        vals = {}
+        for v in range(256):
+            vals[v] = eval_term(d, {leaf: v})
+        if any(x is None for x in vals.values()):
+            continue
+        # which edge subtracts one?
+        tt = b.switch_edges(bi)
+        sub_reach = {}
+        for val, tb in tt:
+            blocks = b.reachable(tb, removed_blocks=[bi])
+            has_sub = any(st["s"] == "assign" and st["rv"]["r"] == "bin" and st["rv"]["bop"] in ("SubWithOverflow", "Sub")
+                          for x in blocks for st in b.blocks[x]["stmts"]) and not all(
+                any(st["s"] == "assign" and st["rv"]["r"] == "bin" and st["rv"]["bop"] in ("SubWithOverflow", "Sub")
+                    for x in b.reachable(tb2, removed_blocks=[bi]) for st in b.blocks[x]["stmts"]) for _, tb2 in tt)
+            sub_reach[val] = has_sub
+        pad = set()
+        for v in range(256):
+            edge = vals[v] if vals[v] in sub_reach else None
+            if sub_reach.get(edge, False):
+                pad.add(v)
+        found = (bi, sorted(pad))
+    ok = found is not None and found[1] == list(range(128, 256))
+    ctx.ob(rule, "Serial::start:pad-iff-top-bit", ok,
+           "Serial::start steps back one octet (emits a leading 0x00) exactly for first octets 0x80..=0xFF",
+           where=b.loc, detail=None if found is None else {"pads_for": "%s..%s (%d values)" % (found[1][:1], found[1][-1:], len(found[1]))})
+
+
+def check_attr_values_unescaped(ctx, f, rule="R-CHK"):
+    """Writer and reader agree on escaping: the writer escapes attribute values, so every accessor of
+    xml::decode::AttrValue hands out the value only after quick-xml's unescape_value."""
+    n = 0
+    for name, r in sorted(f.fns.items()):
+        if r.get("impl_adt") != "xml::decode::AttrValue" or not r.get("has_body") or r.get("impl_trait"):
+            continue
+        b = f.body(name)
+        if b is None:
+            continue
+        n += 1
+        ctx.saw_fn(name)
+        mp = MustPass(f, lambda c: (c.res or "").endswith("Attribute::<'a>::unescape_value") or c.name == "unescape_value", name="unescape_value")
+        ok = mp.holds(name)
+        ctx.ob(rule, "%s→unescape_value" % short(name), ok,
+               "%s returns a value only after the attribute went through quick-xml's unescape_value (the writer escapes the five XML special characters)"
+               % short(name), where=b.loc, detail=None if ok else why(f, mp, name))
+    ctx.floor(rule, "accessors of xml::decode::AttrValue", n, 2)
+
+
+def check_revocation_lookup(ctx, f, which, rule="R-GRD"):
+    """`contains(serial)` answers true exactly for an entry whose serial equals the one asked for — nothing else
+    (dates, position) takes part in the decision."""
+    n = 0
+    for name, b in sorted(f.bodies.items()):
+        if not re.search(r"^%s::RevokedCertificates::contains::\{closure#0\}$" % which, name):
+            continue
+        n += 1
+        ctx.saw_fn(name)
+        s = sym_of(b)
+        trues, falses = [], []
+        for bi, blk in enumerate(b.blocks):
+            for st in blk["stmts"]:
+                if st["s"] == "assign" and st["pl"]["l"] == 0 and not st["pl"]["p"]:
+                    r = render(strip_deep(s.rvalue(st["rv"])))
+                    g = dominating_guards(f, b, bi)
+                    if r == "result::Result::Ok{0: 1}":
+                        trues.append(g)
+                    elif r == "result::Result::Ok{0: 0}":
+                        falses.append(g)
+        want_t = [r"^discr\(Result::unwrap\(CrlEntry::take_opt_from\(%2\)\)\) -> 1$",
+                  r"^PartialEq::eq\(Result::unwrap\(CrlEntry::take_opt_from\(%2\)\)↓Some\.0\.user_certificate, \^\) -> else$"]
+        ok = len(trues) == 1 and len(trues[0]) == 2 and all(re.match(w, g) for w, g in zip(want_t, trues[0])) and \
+            len(falses) == 1 and falses[0] == ["discr(Result::unwrap(CrlEntry::take_opt_from(%2))) -> else"]
+        ctx.ob(rule, "%s::RevokedCertificates::contains:decision" % which.split("::")[-1], ok,
+               "the revocation lookup returns true exactly when an entry's serial equals the requested one, false when the list "
+               "is exhausted; no other condition takes part", where=b.loc, detail={"true_under": trues, "false_under": falses})
+    ctx.floor(rule, "%s revocation lookups" % which, n, 1)
+
+
+def check_text_impls_escape(ctx, f, rule="R-CHK"):
+    """Every implementation of xml::encode::Text::write_escaped sends all of its bytes through TextEscape::write_escaped
+    (directly or via the DisplayText adaptor) — there is no path that writes the bytes unescaped."""
+    n = 0
+    for name, b in sorted(f.bodies.items()):
+        m = re.match(r"^<(.+) as xml::encode::Text>::write_escaped$", name)
+        disp = name == "<xml::encode::DisplayText<'_, W> as std::fmt::Write>::write_str" or \
+            re.match(r"^<xml::encode::DisplayText<.*> as std::fmt::Write>::write_str$", name)
+        if not m and not disp:
+            continue
+        n += 1
+        ctx.saw_fn(name)
+        mp = MustPass(f, lambda c: (c.res or "") == "xml::encode::TextEscape::write_escaped" or
+                      (c.name == "write_fmt" and "DisplayText::new(" in (arg_renders(c) or [""])[0]), name="TextEscape::write_escaped")
+        ok = mp.holds(name)
+        raw = [c.where() for c in b.calls() if not b.is_cleanup(c.bb) and c.name in ("write_all", "write") and
+               (c.trait or "").endswith("io::Write")]
+        ctx.ob(rule, "%s:escapes-everything" % short(name), ok and not raw,
+               "%s writes nothing that did not pass TextEscape::write_escaped" % short(name), where=b.loc,
+               detail={"unescaped_writes": raw, "path": None if ok else why(f, mp, name)})
+    ctx.floor(rule, "implementations of Text::write_escaped (and the Display adaptor)", n, 3)
+
+
+def check_scheme_tests_ignore_case(ctx, f, rule="R-SIB"):
+    """URI schemes are case-insensitive everywhere they are recognised: a comparison against the literal "http://",
+    "https://" or "rsync://" goes through the ignore-case helper or looks at a lower-cased copy (the URI types and the
+    RFC 8183 service URI must accept what the other writes)."""
+    n = 0
+    for name, b in sorted(f.bodies.items()):
+        if is_derived_body(b) or "::test" in name or "arbitrary" in name:
+            continue
+        for c in b.calls():
+            if b.is_cleanup(c.bb) or c.name not in ("starts_with", "strip_prefix", "starts_with_ignore_case", "eq", "eq_ignore_ascii_case"):
+                continue
+            a = arg_renders(c)
+            if len(a) < 2 or not re.search(r"^b'(https?|rsync)://'$", a[-1]):
+                continue
+            n += 1
+            recv = alpha(a[0], b)
+            ok = c.name in ("starts_with_ignore_case", "eq_ignore_ascii_case") or \
+                re.search(r"(to_lowercase|to_ascii_lowercase|make_ascii_lowercase)\(", recv) is not None
+            ctx.ob(rule, "%s:scheme-test-ignores-case[%s]" % (short(root_fn_name(f, name)), a[-1].strip("b'")), ok,
+                   "%s recognises the scheme %s case-insensitively" % (short(root_fn_name(f, name)), a[-1]), where=c.where(),
+                   detail={"call": short(c.res or c.name), "receiver": recv})
+    ctx.floor(rule, "scheme literal comparisons", n, 4)
+
+
+def check_base64_engines(ctx, f, rule="R-SIB"):
+    """Each base64 flavour of util::base64 encodes, displays and decodes with one and the same engine constant (its own
+    ENGINE): a flavour whose writer and reader disagree on the alphabet cannot read what it wrote."""
+    per = {}
+    for n, b in sorted(f.bodies.items()):
+        m = re.match(r"^util::base64::(\w+)::(\w+)$", n)
+        if not m or m.group(2) == "ENGINE" or is_derived_body(b):
+            continue
+        eng = set()
+        for c in b.calls():
+            if b.is_cleanup(c.bb):
+                continue
+            for t in arg_terms(c):
+                for x in walk(t):
+                    if x[0] in ("cdef", "static") and ("base64" in str(x[1])):
+                        eng.add(x[1])
+                    elif x[0] == "call" and (x[3] or {}).get("krate") == "base64" and re.search(r"(STANDARD|URL_SAFE|GeneralPurpose::new)", x[1]):
+                        eng.add(short(x[1]))
+        if eng:
+            per.setdefault(m.group(1), {})[m.group(2)] = sorted(eng)
+    n = 0
+    for ty, meths in sorted(per.items()):
+        n += 1
+        want = ["util::base64::%s::ENGINE" % ty]
+        bad = {k: v for k, v in meths.items() if v != want}
+        ctx.ob(rule, "base64::%s:one-engine" % ty, not bad and len(meths) >= 2,
+               "all encoding and decoding functions of util::base64::%s use %s" % (ty, want[0]), detail=bad or sorted(meths))
+    ctx.floor(rule, "base64 flavours", n, 3)
+
+
+def check_limit_owners(ctx, f, const_name, owners, rule="R-WHO"):
+    """A limit is enforced where the value is built, not re-implemented elsewhere: the order comparisons against the value
+    of `const_name` are exactly the reviewed ones (a second, hand-rolled limit test is where off-by-one slips live)."""
+    from engine import orderlogic as OL
+    c = f.consts.get(const_name)
+    if c is None or "v" not in c:
+        return ctx.missing(rule, "limit:" + short(const_name), const_name)
+    val = c["v"]
+    got = set()
+    for n, b in sorted(f.bodies.items()):
+        if is_derived_body(b) or "::test" in n:
+            continue
+        s = sym_of(b)
+        for bi, blk in enumerate(b.blocks):
+            t = blk["term"]
+            if blk.get("cleanup") or t["t"] != "switch" or t.get("dty") != "bool":
+                continue
+            a = OL.atom(strip_deep(s.operand(t["discr"])))
+            while a[0] == "not":
+                a = a[1]
+            if a[0] == "cmp" and a[1] in ("<", "<=", ">", ">="):
+                for side in (a[2], a[3]):
+                    if (side[0] == "const" and side[1] == val and not isinstance(side[1], bool)) or (side[0] == "cdef" and side[1] == const_name):
+                        got.add(root_fn_name(f, n))
+    got = sorted(got)
+    ctx.ob(rule, "limit:%s=%s:compared-only-by-owners" % (short(const_name), val), got == sorted(owners),
+           "the limit %s (%s) is tested only in %s" % (short(const_name), val, ", ".join(short(o) for o in owners)),
+           detail={"found": got, "reviewed": sorted(owners)})
